@@ -15,6 +15,8 @@ linearisation
     decorated those of them that carry @clear_pending_pop
     abstract  those whose body is only `raise NotImplementedError`
     trivial   those whose body does nothing (pass / return / return None / return <parameter>)
+    assumePush / assumeGuarded   does the body of solve/_solve execute `self.pending_pop = True` (the wrapper asserts
+              assumptions in a pushed level), and is every such assignment in a `finally` / re-raising `except`
 
 The interpretation of the table (which entry point is covered for which class) is done in Lean
 (PySMT/Impl/SolverTrack.lean: `configOf`) and, independently, by `placement()` below for the harness.
@@ -76,6 +78,42 @@ def _is_trivial(fn):
     return True
 
 
+def _is_pending_assign(st):
+    if not isinstance(st, ast.Assign) or len(st.targets) != 1:
+        return False
+    t = st.targets[0]
+    return (isinstance(t, ast.Attribute) and t.attr == "pending_pop" and isinstance(t.value, ast.Name)
+            and t.value.id == "self" and isinstance(st.value, ast.Constant) and st.value.value is True)
+
+
+def _pending_in_solve(fn):
+    """(sets, guarded): does the body of solve/_solve execute `self.pending_pop = True` (the wrapper pushes a level
+    for assumptions it cannot pass natively), and is EVERY such assignment in the `finally` part of a `try`, or in an
+    `except` handler that re-raises, so that it is also reached when asserting the assumptions raises?"""
+    found = []
+
+    def walk(stmts, protected):
+        for st in stmts:
+            if _is_pending_assign(st):
+                found.append(protected)
+            elif isinstance(st, ast.Try):
+                walk(st.body, protected)
+                walk(st.orelse, protected)
+                walk(st.finalbody, True)
+                for h in st.handlers:
+                    reraises = any(isinstance(x, ast.Raise) and x.exc is None for x in h.body)
+                    walk(h.body, protected or reraises)
+            elif isinstance(st, (ast.FunctionDef, ast.AsyncFunctionDef, ast.ClassDef)):
+                continue
+            else:
+                for fld in ("body", "orelse"):
+                    sub = getattr(st, fld, None)
+                    if isinstance(sub, list):
+                        walk(sub, protected)
+    walk(fn.body, False)
+    return (len(found) > 0, len(found) > 0 and all(found))
+
+
 def _has_decorator(fn):
     for d in fn.decorator_list:
         if isinstance(d, ast.Call):
@@ -125,8 +163,12 @@ def scan(repo):
                 else:
                     raise ValueError("%s: cannot express base %s of %s" % (path, ast.dump(b), node.name))
             info = dict(bases=bases, defines=[], decorated=[], abstract=[], trivial=[],
-                        file=os.path.relpath(path, repo))
+                        file=os.path.relpath(path, repo), assume_push=False, assume_guarded=False)
             for st in node.body:
+                if isinstance(st, (ast.FunctionDef, ast.AsyncFunctionDef)) and st.name in ("solve", "_solve"):
+                    sets, guarded = _pending_in_solve(st)
+                    info["assume_push"] = info.get("assume_push", False) or sets
+                    info["assume_guarded"] = guarded if sets else info.get("assume_guarded", False)
                 if isinstance(st, (ast.FunctionDef, ast.AsyncFunctionDef)):
                     if st.name in info["defines"]:
                         # redefinition (e.g. property setter): the last definition wins, like in Python
@@ -197,7 +239,8 @@ def table(repo):
         info = classes[name]
         out.append(dict(name=name, file=info["file"], mro=[m for m in mro if m in classes],
                         defines=info["defines"], decorated=info["decorated"],
-                        abstract=info["abstract"], trivial=info["trivial"]))
+                        abstract=info["abstract"], trivial=info["trivial"],
+                        assume_push=info["assume_push"], assume_guarded=info["assume_guarded"]))
     return out
 
 
@@ -246,7 +289,13 @@ def placement(tbl_list, name):
         o = _resolve(tbl, cls, m)
         if o is not None and m not in o["abstract"] and m not in o["trivial"] and m not in o["decorated"]:
             extras_ok = False
+    o_solve = _resolve(tbl, cls, "solve")
+    if o_solve is not None and o_solve["name"] == ITS:
+        o_solve = _resolve(tbl, cls, "_solve")
+    assume_push = bool(o_solve is not None and o_solve.get("assume_push"))
+    assume_guarded = bool(o_solve is not None and o_solve.get("assume_guarded"))
     return dict(
+        assumePush=assume_push, assumeGuarded=assume_guarded,
         dAdd=dec("add_assertion", "_add_assertion"), dPush=dec("push", "_push"), dPop=dec("pop", "_pop"),
         dReset=dec("reset_assertions", "_reset_assertions"), dSolve=dec("solve", "_solve"),
         dRead=(o_read is not None and "assertions" in o_read["decorated"]),
@@ -274,6 +323,8 @@ structure ClassInfo where
   decorated : List String
   abstract : List String
   trivial : List String
+  assumePush : Bool       -- the body of solve/_solve sets `self.pending_pop = True` (pushes a level for assumptions)
+  assumeGuarded : Bool    -- … and does so in a `finally` / re-raising `except`, i.e. also when asserting them raises
   deriving Repr, DecidableEq, Inhabited
 
 '''
@@ -286,12 +337,13 @@ def generate(repo):
     rows = []
     for c in tbl:
         rows.append("  { name := \"%s\", file := \"%s\",\n    mro := %s,\n    defines := %s,\n    decorated := %s,\n"
-                    "    abstract := %s,\n    trivial := %s }" % (
+                    "    abstract := %s,\n    trivial := %s,\n    assumePush := %s, assumeGuarded := %s }" % (
                         c["name"], c["file"], _lstr(c["mro"]),
                         _lstr([m for m in c["defines"] if m in keep]),
                         _lstr(c["decorated"]),
                         _lstr([m for m in c["abstract"] if m in keep]),
-                        _lstr([m for m in c["trivial"] if m in keep])))
+                        _lstr([m for m in c["trivial"] if m in keep]),
+                        "true" if c["assume_push"] else "false", "true" if c["assume_guarded"] else "false"))
     parts.append(",\n".join(rows))
     parts.append("\n]\n\nend PySMT.Gen.PendingPop\n")
     return {"PendingPop.lean": "".join(parts)}
